@@ -194,7 +194,7 @@ def main():
             except Exception:
                 pass
             out['violations'].append({'name': name, 'replay': path, 'kinds': [f['kind'] for f in unmatched],
-                                      'detail': unmatched[0]['detail'][:600]})
+                                      'detail': (unmatched[0]['detail'][-600:] if unmatched[0]['kind'] == 'exception' else unmatched[0]['detail'][:600])})
     cov.stop()
     out['sigs'] = sorted(sigs)
     out['anchors'] = {q: n for q, n in cov.by_qualname().items()}
